@@ -20,6 +20,7 @@ type c13Stream struct {
 	Chunks   [][]byte `json:"c"`
 	RoleOnly bool     `json:"r,omitempty"` // the stream legitimately changes the node's role: only "no crash" is judged
 	Expect   int      `json:"e,omitempty"` // >0: number of reply bytes the attacker connection must receive
+	Follower bool     `json:"f,omitempty"` // the stream (and the witness) go to a follower of a live leader: requests are forwarded
 }
 
 func c13Cfg() hapi.Config { return hapi.Config{FastKeys: 4, Concurrent: 1} }
@@ -28,13 +29,22 @@ func c13Cfg() hapi.Config { return hapi.Config{FastKeys: 4, Concurrent: 1} }
 func runStream(st *c13Stream) (viol *explore.Violation, obs string, engErr string) {
 	var witnessMsg string
 	rt := vrt.Run(vrt.Options{MaxPoints: 30_000_000}, func() {
-		node := hapi.Factories["n0"](c13Cfg())
-		if err := node.Start(); err != nil {
-			engErr = "node start: " + err.Error()
-			return
-		}
-		vrt.AdvanceTo(1300 * ms)
 		addr := "127.0.0.1:5658"
+		if st.Follower {
+			cl, err := StartLeaderFollowers(1, nil)
+			if err != nil {
+				engErr = "cluster start: " + err.Error()
+				return
+			}
+			addr = cl.Addrs[1]
+		} else {
+			node := hapi.Factories["n0"](c13Cfg())
+			if err := node.Start(); err != nil {
+				engErr = "node start: " + err.Error()
+				return
+			}
+			vrt.AdvanceTo(1300 * ms)
+		}
 		if len(st.Setup) > 0 {
 			sc, err := wire.Dial(addr)
 			if err != nil {
@@ -711,6 +721,43 @@ func c13InputEdgeStreams(quick bool) []c13Stream {
 	return out
 }
 
+// c13FollowerStreams: text requests sent to a FOLLOWER, which re-encodes them as binary frames for the leader:
+// LOCK / UNLOCK with every value of the FLAG option (any byte goes into the request's flag field, also the
+// "a value frame follows" bit with no value option), as the first command of the connection and after a PING,
+// and the value-carrying options next to an explicit FLAG
+func c13FollowerStreams(quick bool) []c13Stream {
+	var out []c13Stream
+	flags := []int{0, 1, 2, 4, 8, 16, 32, 64, 128, 33, 34, 36, 40, 48, 96, 160, 255}
+	if !quick {
+		flags = nil
+		for f := 0; f < 256; f++ {
+			flags = append(flags, f)
+		}
+	}
+	for _, cmd := range []string{"LOCK", "UNLOCK"} {
+		for _, f := range flags {
+			for _, ping := range []bool{false, true} {
+				for _, opt := range []string{"", " SET v", " INCR 2"} {
+					if opt != "" && (f&0x20 == 0 || cmd == "UNLOCK") && quick {
+						continue
+					}
+					args := []string{cmd, fmt.Sprintf("fk%d", f), "LOCK_ID", "fid", "FLAG", fmt.Sprint(f), "TIMEOUT", "0", "EXPRIED", "5"}
+					if opt != "" {
+						args = append(args, strings.Fields(opt)...)
+					}
+					var chunks [][]byte
+					if ping {
+						chunks = append(chunks, wire.Resp("PING"))
+					}
+					chunks = append(chunks, wire.Resp(args...))
+					out = append(out, c13Stream{Name: fmt.Sprintf("follower/text/%s-flag%d-ping=%v%s", cmd, f, ping, strings.ReplaceAll(opt, " ", "-")), Chunks: chunks, Follower: true})
+				}
+			}
+		}
+	}
+	return out
+}
+
 func c13Group(name string, quick bool) []c13Stream {
 	switch name {
 	case "handover":
@@ -725,13 +772,15 @@ func c13Group(name string, quick bool) []c13Stream {
 		return c13TextStreams(quick)
 	case "keystate":
 		return c13KeyStateStreams(quick)
+	case "follower":
+		return c13FollowerStreams(quick)
 	}
 	return c13SplitStreams(quick)
 }
 
 func c13Cases(quick bool) []EnumCase {
 	var out []EnumCase
-	for _, g := range []string{"binary", "text", "split", "pipeline", "keystate", "handover", "input-edge"} {
+	for _, g := range []string{"binary", "text", "split", "pipeline", "keystate", "handover", "input-edge", "follower"} {
 		n := len(c13Group(g, quick))
 		chunk := 60
 		for f := 0; f < n; f += chunk {
